@@ -226,6 +226,12 @@ class Sample:
             )
         }
         muts: dict = defaultdict(list)
+        # Database multi-substitutions (e.g., `A.C>T.G`), functional or not
+        multi_sites = {
+            (pos, op)
+            for pos, op in self.gene.mutations
+            if ">" in op and len(op) > 3
+        }
 
         def get_mut(pos, ref, alt):
             if any(c not in "ACGT" for c in alt):
@@ -245,6 +251,17 @@ class Sample:
                 # The database keys an insertion by the base it follows (the last
                 # base shared by REF and ALT), not by the next reference base.
                 return off + pos - 1, f"ins{alt[off:]}"
+            elif len(ref) == len(alt):
+                # A database multi-substitution written as a single record
+                diff = [i for i in range(len(alt)) if alt[i] != self.gene[pos + i]]
+                if len(diff) > 1:
+                    rng = range(diff[0], diff[-1] + 1)
+                    l = "".join(self.gene[pos + i] if i in diff else "." for i in rng)
+                    r = "".join(alt[i] if i in diff else "." for i in rng)
+                    if (pos + diff[0], f"{l}>{r}") in multi_sites:
+                        return pos + diff[0], f"{l}>{r}"
+                log.trace(f"[sam] ignoring {pos}: {ref}->{alt}")
+                return pos, None
             else:
                 log.trace(f"[sam] ignoring {pos}: {ref}->{alt}")
                 return pos, None
@@ -267,7 +284,6 @@ class Sample:
                 g = sorted(y for y in read.samples[sample]["GT"] if y is not None)
                 if len(g) != 2 or self.gene[read.pos - 1] == "N":
                     continue  # ignore polyploid and incomplete cases
-                dump_arr = {}
                 if len(read.ref) == 1 and read.ref != self.gene[read.pos - 1]:
                     hgvs = [(read.pos - 1, f"{self.gene[read.pos - 1]}>{read.ref}")]
                 else:
@@ -286,25 +302,21 @@ class Sample:
                         continue
                     muts[pos, op] += [(40, 40)] * 10
                     norm[pos] = norm[pos][:-10]
-                    dump_arr[pos] = op
 
-                # Handle multi-SNPs
-                for pos, op in self._multi_sites.items():
-                    if pos not in dump_arr:
-                        continue
-                    l, r = op.split(">")
-                    if all(
-                        dump_arr.get(pos + p, "-") == f"{l[p]}>{r[p]}"
-                        for p in range(len(l))
-                        if l[p] != "."
-                    ):
-                        for p in range(len(l)):
-                            if l[p] != ".":
-                                np = pos + p, f"{l[p]}>{r[p]}"
-                                muts[np] = muts[np][:-10]
-                                if p:
-                                    norm[pos + p] += [(40, 40)] * 10
-                        muts[pos, op] += [(40, 40)] * 10
+            # Handle multi-SNPs whose parts are written as separate (adjacent) records:
+            # as many copies as all parts share are moved to the multi-substitution
+            for pos, op in sorted(multi_sites):
+                l, r = op.split(">")
+                parts = [
+                    (pos + p, f"{l[p]}>{r[p]}") for p in range(len(l)) if l[p] != "."
+                ]
+                k = min(len(muts[np]) if np in muts else 0 for np in parts)
+                if k:
+                    for np in parts:
+                        muts[np] = muts[np][:-k]
+                        if np[0] != pos:
+                            norm[np[0]] += [(40, 40)] * k
+                    muts[pos, op] += [(40, 40)] * k
         return norm, muts
 
     def _load_dump(self, dump_path: str):
